@@ -81,11 +81,12 @@ def post(ctx, c, rep):
     rd = {}
     for k, a in isoapi.parse_entries([x for x in rep.entries if x.startswith('I:')]).items():
         p = '/' + '/'.join(bytes.fromhex(h).decode('utf-8', 'replace') for h in k[2].split('/') if h)
-        rd[(k[1], p)] = a
+        # a relocation placeholder (RRIP CL) is listed by the library's walk() as a file name
+        rd[('F' if k[1] == 'P' else k[1], p)] = dict(a, placeholder=(k[1] == 'P'))
     for k in set(api) ^ set(rd):
         ctx.violation('C03.api-vs-reader/tree', 'entry %s %r is seen by only one of (library API, independent reader)' % k, rp)
     for k in set(api) & set(rd):
-        if k[0] == 'F' and api[k][1] is not None:
+        if k[0] == 'F' and api[k][1] is not None and not rd[k].get('placeholder'):
             if len(api[k][1]) != rd[k]['len'] or fnv(api[k][1]) != rd[k]['hash']:
                 ctx.violation('C03.api-vs-reader/content', 'file %r: API reads %d bytes, reader %d' % (k[1], len(api[k][1]), rd[k]['len']), rp)
     # record-level codec correspondence
